@@ -3,7 +3,7 @@
  * writes outputs atomically, a depfile or /showIncludes lines for its hidden reads, and appends start/end records to
  * the trace file named by $VERIF_TRACE.  Faults and delays are injected through the environment so that the command
  * line (and with it ninja's command hash) does not change:
- *   VERIF_FAULTS="key:code:touch,..."   VERIF_SLEEP="key:ms,..."   VERIF_HOLD="key:fifo,..." (blocks until the fifo is opened for writing)
+ *   VERIF_FAULTS="key:code:touch,..."   VERIF_SLEEP="key:ms,..."   VERIF_HOLD="key:fifo,..." (blocks until the fifo is opened for writing)  VERIF_SYMLOOP="key:1,..."
  *   VERIF_PRINT="key:hex,..." (bytes written to stdout in VERIF_CHUNKS pieces)
  * usage: vtool run --id KEY --variant V [--restat] [--reads f...] [--hidden f...] [--depfile F --layout N] [--msvc]
  *              [--rsp F] [--literal OUT HEX] --out o...
@@ -152,6 +152,13 @@ int main(int argc, char** argv) {
       else { dl += snprintf(d + dl, sizeof d - dl, "%s:", t); for (int i = 0; i < nhid; i++) dl += snprintf(d + dl, sizeof d - dl, " %s", hidden[i]); dl += snprintf(d + dl, sizeof d - dl, "\n"); }
       write_atomic(depfile, d, dl);
     }
+  }
+  /* VERIF_SYMLOOP="key:1,...": the command leaves its first output as a link to itself, so that ninja's stat() of it
+   * fails with an error other than "does not exist" */
+  if (envlookup("VERIF_SYMLOOP", id) && nout) {
+    const char* b = strrchr(outs[0], '/'); b = b ? b + 1 : outs[0];
+    unlink(outs[0]);
+    if (symlink(b, outs[0]) != 0) {}
   }
   if (msvc) for (int i = 0; i < nhid; i++) printf("Note: including file: %s\n", hidden[i]);
   fflush(stdout);
